@@ -24,14 +24,21 @@ type note struct{ from, to int }
 
 type listener struct{ log []note }
 
-func (l *listener) OnTransformToClosed(prev cb.State, _ cb.Rule) {
-	l.log = append(l.log, note{int(prev), model.Closed})
+// only the breaker under test (rule "r") is recorded; the optional blocking breaker "blk" is scenery
+func (l *listener) OnTransformToClosed(prev cb.State, r cb.Rule) {
+	if r.Id == "r" {
+		l.log = append(l.log, note{int(prev), model.Closed})
+	}
 }
-func (l *listener) OnTransformToOpen(prev cb.State, _ cb.Rule, _ interface{}) {
-	l.log = append(l.log, note{int(prev), model.Open})
+func (l *listener) OnTransformToOpen(prev cb.State, r cb.Rule, _ interface{}) {
+	if r.Id == "r" {
+		l.log = append(l.log, note{int(prev), model.Open})
+	}
 }
-func (l *listener) OnTransformToHalfOpen(prev cb.State, _ cb.Rule) {
-	l.log = append(l.log, note{int(prev), model.HalfOpen})
+func (l *listener) OnTransformToHalfOpen(prev cb.State, r cb.Rule) {
+	if r.Id == "r" {
+		l.log = append(l.log, note{int(prev), model.HalfOpen})
+	}
 }
 
 const (
@@ -43,12 +50,14 @@ const (
 var opName = []string{"entry", "exit-ok", "exit-err"}
 
 type program struct {
-	strategy  int
-	probeNum  uint64
-	retry     uint64
-	start     int // 0 closed one short of tripping, 1 open near the deadline, 2 half-open with the probe in flight
-	early     uint64
-	preHeld   []int // entries each task holds at the start (obtained while closed)
+	strategy int
+	probeNum uint64
+	retry    uint64
+	start    int // 0 closed one short of tripping, 1 open near the deadline, 2 half-open with the probe in flight
+	early    uint64
+	preHeld  []int // entries each task holds at the start (obtained while closed)
+	blocker  bool  // a second breaker on the resource, after the one under test, that stays open: every probe of
+	// the first is blocked by it and rolled back to open by the probe's exit hook
 	tasks     [][]int
 	tickKinds []uint64
 }
@@ -104,11 +113,16 @@ func execute2(c *hx.Case, p program, choose func(enabled []int, last int) int, t
 	if p.strategy == model.SlowRequestRatio {
 		rule.MaxAllowedRtMs = 0 // rt > 0 is slow: a completion is "bad" iff the clock advanced since its entry
 	}
-	if _, err := cb.LoadRules([]*cb.Rule{rule}); err != nil {
+	rules := []*cb.Rule{rule}
+	if p.blocker {
+		rules = append(rules, &cb.Rule{Id: "blk", Resource: "res", Strategy: cb.ErrorCount, RetryTimeoutMs: 3600000, MinRequestAmount: 1,
+			StatIntervalMs: 10000, StatSlidingWindowBucketCount: 1, Threshold: 2})
+	}
+	if _, err := cb.LoadRules(rules); err != nil {
 		return "LoadRules: " + err.Error(), false
 	}
 	brs := cb.GetRulesOfResource("res")
-	if len(brs) != 1 {
+	if len(brs) != len(rules) {
 		return "rule not loaded", false
 	}
 	// ---- sequential preparation (the driver is not a task: yield points do not park it) ----
@@ -264,6 +278,13 @@ func execute2(c *hx.Case, p program, choose func(enabled []int, last int) int, t
 	if inside2 && len(changes) > 0 {
 		c.NonTrivial()
 		c.Class("two-tasks-inside+transition")
+		rolled := false
+		for _, ch := range changes {
+			if p.blocker && ch.from == model.HalfOpen && ch.to == model.Open && ch.op != nil && ch.op.kind == oEntry {
+				rolled = true
+			}
+		}
+		c.ClassIf(rolled, "probe-blocked-by-later-breaker-and-rolled-back")
 	}
 	dump := func() string {
 		out := fmt.Sprintf("strategy=%d probeNum=%d retry=%d start=%d early=%d preHeld=%v tasks=%v; prepared state %d; changes(from,to,step,clock+)=", p.strategy, p.probeNum, p.retry, p.start, p.early, p.preHeld, p.tasks, prepState)
@@ -357,18 +378,23 @@ func execute2(c *hx.Case, p program, choose func(enabled []int, last int) int, t
 }
 
 func getBreaker() cb.CircuitBreaker {
-	bs := cb.VerifBreakersOfResource("res")
-	return bs[0]
+	for _, b := range cb.VerifBreakersOfResource("res") {
+		if b.BoundRule().Id == "r" {
+			return b
+		}
+	}
+	panic("breaker of rule r not found")
 }
 
 func drawProgram(t *rapid.T) program {
 	p := program{strategy: rapid.IntRange(0, 2).Draw(t, "strategy"), probeNum: uint64(rapid.SampledFrom([]int{0, 0, 2}).Draw(t, "probeNum")),
 		retry: uint64(rapid.SampledFrom([]int{5, 10}).Draw(t, "retry")), start: rapid.IntRange(0, 2).Draw(t, "start")}
 	p.early = uint64(rapid.IntRange(0, 1).Draw(t, "early"))
+	p.blocker = p.start == 1 && rapid.IntRange(0, 2).Draw(t, "blocker") == 0
 	ng := rapid.IntRange(2, 3).Draw(t, "tasks")
 	for g := 0; g < ng; g++ {
 		pre := 0
-		if p.start == 0 {
+		if p.start == 0 || p.blocker {
 			pre = rapid.IntRange(0, 2).Draw(t, "preHeld")
 		}
 		p.preHeld = append(p.preHeld, pre)
@@ -407,6 +433,10 @@ func basePrograms() []program {
 		// half-open with the probe in flight: it completes while another request arrives
 		ps = append(ps, program{strategy: model.ErrorCount, probeNum: probe, retry: 5, start: 2, preHeld: []int{0, 0}, tasks: [][]int{{oExitErr}, {oEntry}}})
 		ps = append(ps, program{strategy: model.ErrorRatio, probeNum: probe, retry: 5, start: 2, preHeld: []int{0, 0}, tasks: [][]int{{oExitOK}, {oEntry, oExitErr}}})
+		// open, deadline passed, a second open breaker behind it: the probe is blocked and rolled back while a request
+		// admitted before the outage completes
+		ps = append(ps, program{strategy: model.ErrorCount, probeNum: probe, retry: 5, start: 1, blocker: true, preHeld: []int{0, 1}, tasks: [][]int{{oEntry}, {oExitOK}}})
+		ps = append(ps, program{strategy: model.ErrorRatio, probeNum: probe, retry: 5, start: 1, blocker: true, preHeld: []int{0, 1, 0}, tasks: [][]int{{oEntry}, {oExitErr}, {oEntry}}})
 	}
 	return ps
 }
